@@ -78,9 +78,9 @@ const char* SkipToMatchingQuote(const char* s) {
   assert((*s == '\'') || (*s == '"'));
   char quote = s[0];
   ++s;
-  while (*s != quote)
+  while (*s && *s != quote)
     ++s;
-  return ++s;
+  return *s ? ++s : s;       // stop at the end of an unterminated string
 }
 
 struct Deleter {
@@ -272,7 +272,8 @@ std::string OptionHelper<std::string>::Parse(const char *&s, bool splitString) {
   if (quoted(s))
   {
     s = SkipToMatchingQuote(s);
-    return std::string(start + 1, s - start - 2);
+    bool closed = s - start >= 2 && s[-1] == *start;
+    return std::string(start + 1, s - start - (closed ? 2 : 1));
   }
   else
   {
